@@ -1510,9 +1510,14 @@ impl<'a, T, L: MutLayout> ExactSizeIterator for AxisChunks<'a, T, L> {}
 impl<'a, T, L: MutLayout> DoubleEndedIterator for AxisChunks<'a, T, L> {
     fn next_back(&mut self) -> Option<Self::Item> {
         let remainder = self.remainder.take()?;
-        let chunk_len = self.chunk_size.min(remainder.size(self.axis));
-        let (prev_remainder, current) =
-            remainder.split_at(self.axis, remainder.size(self.axis) - chunk_len);
+        // The last chunk is shorter than the others if the remaining size is
+        // not a multiple of the chunk size.
+        let remainder_size = remainder.size(self.axis);
+        let chunk_len = match remainder_size % self.chunk_size {
+            0 => self.chunk_size,
+            partial => partial,
+        };
+        let (prev_remainder, current) = remainder.split_at(self.axis, remainder_size - chunk_len);
         self.remainder = if prev_remainder.size(self.axis) > 0 {
             Some(prev_remainder)
         } else {
@@ -1584,8 +1589,13 @@ impl<'a, T, L: MutLayout> ExactSizeIterator for AxisChunksMut<'a, T, L> {}
 impl<'a, T, L: MutLayout> DoubleEndedIterator for AxisChunksMut<'a, T, L> {
     fn next_back(&mut self) -> Option<Self::Item> {
         let remainder = self.remainder.take()?;
+        // The last chunk is shorter than the others if the remaining size is
+        // not a multiple of the chunk size.
         let remainder_size = remainder.size(self.axis);
-        let chunk_len = self.chunk_size.min(remainder_size);
+        let chunk_len = match remainder_size % self.chunk_size {
+            0 => self.chunk_size,
+            partial => partial,
+        };
         let (prev_remainder, current) =
             remainder.split_at_mut(self.axis, remainder_size - chunk_len);
         self.remainder = if prev_remainder.size(self.axis) > 0 {
